@@ -197,10 +197,18 @@ def parse_compare(repo):
     funcs = {}
     for fm in re.finditer(r"int\s+(reb_\w+_diff)\s*\(\s*struct\s+(\w+)\s+(\w+)\s*,\s*struct\s+\w+\s+(\w+)\s*\)\s*\{(.*?)\n\}", src, flags=re.S):
         a, b = fm.group(3), fm.group(4)
-        mems = re.findall(r"\(\s*%s\.(\w+)\s*!=\s*%s\.(\w+)\s*\)" % (a, b), fm.group(5))
-        if any(x != y for x, y in mems):
-            raise Infra("extract_c05: %s compares different members" % fm.group(1))
-        funcs[fm.group(1)] = {"struct": fm.group(2), "members": [x for x, _ in mems]}
+        mems, modes = [], {}
+        # two accepted forms per line:  (p1.M != p2.M)   [C comparison]   |   memcmp(&p1.M, &p2.M, sizeof(T))   [bitwise]
+        for lm in re.finditer(r"\(\s*%s\.(\w+)\s*!=\s*%s\.(\w+)\s*\)|memcmp\(\s*&%s\.(\w+)\s*,\s*&%s\.(\w+)\s*,\s*sizeof\(\s*\w+\s*\)\s*\)" % (a, b, a, b), fm.group(5)):
+            x, y = (lm.group(1), lm.group(2)) if lm.group(1) else (lm.group(3), lm.group(4))
+            if x != y:
+                raise Infra("extract_c05: %s compares different members" % fm.group(1))
+            mems.append(x)
+            modes[x] = "ne" if lm.group(1) else "bits"
+        nstmt = len(re.findall(r"differ\s*=\s*differ\s*\|\|", fm.group(5)))
+        if nstmt != len(mems):
+            raise Infra("extract_c05: %s has %d comparison statements but %d were understood" % (fm.group(1), nstmt, len(mems)))
+        funcs[fm.group(1)] = {"struct": fm.group(2), "members": mems, "modes": modes}
     # inside reb_binary_diff:  if (strcmp(...name, "particles")==0){ ... reb_particle_diff(
     body = src[src.index("int reb_binary_diff("):]
     specs = []
@@ -447,7 +455,11 @@ def render(info):
     for sp in specs:
         e = elems[sp["struct"]]
         bym = {m["name"]: m for m in e["members"]}
-        cl.append("  ⟨%d, [%s]⟩" % (e["size"], ", ".join("⟨.%s, %d, %d⟩" % (EK.get(bym[x]["kind"], "other"), bym[x]["off"], bym[x]["size"]) for x in sp["members"])))
+        def ck(x):
+            k = EK.get(bym[x]["kind"], "other")
+            # a double compared bitwise (memcmp) behaves like an integer of the same size
+            return "u64" if (k == "f64" and sp.get("modes", {}).get(x) == "bits") else k
+        cl.append("  ⟨%d, [%s]⟩" % (e["size"], ", ".join("⟨.%s, %d, %d⟩" % (ck(x), bym[x]["off"], bym[x]["size"]) for x in sp["members"])))
     o.append(",\n".join(cl))
     o.append("]")
     o.append("def cmpSpecFields : List String := [%s]" % ", ".join(lstr(sp["field"]) for sp in specs))
